@@ -251,6 +251,10 @@ func checkC18(p *Program, r *Report) {
 	// children entry; a loader that takes an empty children array for an empty trie reports 0 keys
 	r.Explanation += " (empty-legacy) no branch of the legacy loader decides emptiness from the children array alone (a legacy single-key trie has no children entry and one leaf)."
 	checkLegacyEmptiness(p, r, "C18.empty-legacy", underUnmarshal(p))
+	// KeyCnt is the number of retained keys, and which keys are retained depends on the de-duplication
+	// option in force: the documented default (on) must survive the option normalisation
+	r.Explanation += " (options) the option normalisation leaves DedupValue true whenever the caller did not set it, and forces the prefix kinds exactly when Complete is true (rule shared with C13)."
+	checkOptNormalisationAs(p, r, "C18.options")
 }
 
 func init() { checks["C18"] = checkC18 }
